@@ -7,11 +7,12 @@ pub fn family() -> Family {
     Family { name: "c07", cases, check }
 }
 
-struct Sink { out: Vec<u8>, per_call: usize, fail_at: Option<usize>, fail_call: Option<usize>, calls: usize }
+struct Sink { out: Vec<u8>, per_call: usize, fail_at: Option<usize>, fail_call: Option<usize>, calls: usize, zero_call: Option<usize> }
 impl Write for Sink {
     fn write(&mut self, buf: &[u8]) -> io::Result<usize> {
         self.calls += 1;
         if self.fail_call == Some(self.calls) { return Err(io::Error::new(io::ErrorKind::Other, "injected once")); }
+        if self.zero_call == Some(self.calls) && !buf.is_empty() { return Ok(0); }
         if let Some(f) = self.fail_at {
             if self.out.len() >= f { return Err(io::Error::new(io::ErrorKind::Other, "injected")); }
         }
@@ -55,6 +56,8 @@ fn cases(_ob: &str) -> Vec<String> {
             out.push(format!("fail:{}:{}", oi, vi));
             out.push(format!("agree:{}:{}", oi, vi));
             out.push(format!("failonce:{}:{}", oi, vi));
+            out.push(format!("fixed:{}:{}", oi, vi));
+            out.push(format!("zeroonce:{}:{}", oi, vi));
         }
     }
     out
@@ -77,7 +80,7 @@ fn check(case: &str) -> Option<String> {
     match p[0] {
         "short" => {
             let k: usize = p[3].parse().ok()?;
-            let mut s = Sink { out: vec![], per_call: k, fail_at: None, fail_call: None, calls: 0 };
+            let mut s = Sink { out: vec![], per_call: k, fail_at: None, fail_call: None, calls: 0, zero_call: None };
             let r = print_to(&mut s, &v, &o);
             match r {
                 Ok(()) => if s.out != full.as_bytes() {
@@ -93,7 +96,7 @@ fn check(case: &str) -> Option<String> {
         }
         "fail" => {
             for at in 0..=full.len() {
-                let mut s = Sink { out: vec![], per_call: usize::MAX, fail_at: Some(at), fail_call: None, calls: 0 };
+                let mut s = Sink { out: vec![], per_call: usize::MAX, fail_at: Some(at), fail_call: None, calls: 0, zero_call: None };
                 let r = print_to(&mut s, &v, &o);
                 if at < full.len() && r.is_ok() { return Some(format!("options {}: error injected at offset {} of {:?} but the call returned Ok", oname, at, full)); }
                 if !full.as_bytes().starts_with(&s.out) { return Some(format!("options {}: bytes delivered before the error are not a prefix", oname)); }
@@ -103,11 +106,33 @@ fn check(case: &str) -> Option<String> {
         "failonce" => {
             // a transient error at the k-th write call: the print call must fail (an Ok with missing bytes is a swallowed error)
             for k in 1..40usize {
-                let mut s = Sink { out: vec![], per_call: usize::MAX, fail_at: None, fail_call: Some(k), calls: 0 };
+                let mut s = Sink { out: vec![], per_call: usize::MAX, fail_at: None, fail_call: Some(k), calls: 0, zero_call: None };
                 let r = print_to(&mut s, &v, &o);
                 if s.calls < k { break; }
                 if r.is_ok() { return Some(format!("options {}: write call #{} failed once but printing {:?} returned Ok with {:?}", oname, k, full, String::from_utf8_lossy(&s.out))); }
                 if !full.as_bytes().starts_with(&s.out) { return Some(format!("options {}: after a transient error delivered bytes are not a prefix", oname)); }
+            }
+            None
+        }
+        "fixed" => {
+            // a fixed-size buffer (std's Write for &mut [u8] accepts what fits, then 0 bytes): too small must be an error, never a truncated Ok
+            for n in 0..=full.len() {
+                let mut buf = vec![0u8; n];
+                let r = { let mut w: &mut [u8] = &mut buf[..]; match &o { None => lexpr::to_writer(&mut w, &v), Some(o) => lexpr::to_writer_custom(&mut w, &v, *o) } };
+                if n < full.len() && r.is_ok() { return Some(format!("options {}: a {}-byte buffer cannot hold {:?} ({} bytes) but the call returned Ok with {:?}", oname, n, full, full.len(), String::from_utf8_lossy(&buf))); }
+                if n == full.len() && (r.is_err() || buf != full.as_bytes()) { return Some(format!("options {}: an exactly fitting buffer got {:?} / {:?}, to_string gives {:?}", oname, String::from_utf8_lossy(&buf), r.is_ok(), full)); }
+                if !full.as_bytes().starts_with(&buf[..n.min(full.len())]) { return Some(format!("options {}: bytes in a {}-byte buffer are not a prefix of {:?}", oname, n, full)); }
+            }
+            None
+        }
+        "zeroonce" => {
+            // the sink accepts zero bytes at the k-th write call: that is a failed write (WriteZero), an Ok return means bytes were dropped
+            for k in 1..60usize {
+                let mut s = Sink { out: vec![], per_call: usize::MAX, fail_at: None, fail_call: None, calls: 0, zero_call: Some(k) };
+                let r = print_to(&mut s, &v, &o);
+                if s.calls < k { break; }
+                if r.is_ok() && s.out != full.as_bytes() { return Some(format!("options {}: write call #{} accepted 0 bytes; printing {:?} returned Ok but the sink holds {:?}", oname, k, full, String::from_utf8_lossy(&s.out))); }
+                if !full.as_bytes().starts_with(&s.out) { return Some(format!("options {}: after a zero-byte write delivered bytes are not a prefix", oname)); }
             }
             None
         }
